@@ -3,8 +3,10 @@ package main
 import (
 	"context"
 	"fmt"
+	"runtime"
 	"sort"
 	"strings"
+	"sync"
 
 	jump "github.com/dgryski/go-jump"
 	"github.com/smallnest/rpcx/client"
@@ -125,7 +127,86 @@ func c13Run(o *common.Out, id string, nkeys, instances int, updates [][]int) {
 	o.Case(id, model.String(), strings.Join(obs, " "), len(updates) > 1 || len(updates[0]) > 1)
 }
 
+// an argument value whose String method gives up the processor while the key is being rendered: the same key
+// must come out whatever other selections are going on at that moment
+type c13YieldArg struct{ s string }
+
+func (a c13YieldArg) String() string {
+	runtime.Gosched()
+	return a.s
+}
+
+// c13Concurrent: g clients (one selector each, built from the same n servers) select concurrently; every key maps
+// to the server it maps to when nothing else is running.  case: conc|n|g|iters
+func c13Concurrent(o *common.Out, id string, n, g, iters int) {
+	abstract := fmt.Sprintf("conc|%d|%d|%d", n, g, iters)
+	o.Begin(id, abstract)
+	ids := make([]int, n)
+	for i := range ids {
+		ids[i] = i
+	}
+	sels := make([]client.Selector, g)
+	for i := range sels {
+		sels[i] = client.VerifNewSelector(client.ConsistentHash, names(ids))
+	}
+	const nk = 24
+	want := make([][]string, g)
+	for gi := range sels {
+		want[gi] = make([]string, nk)
+		for k := 0; k < nk; k++ {
+			want[gi][k] = sels[gi].Select(context.Background(), "Arith", "Mul", c13YieldArg{fmt.Sprintf("key-%d-%d", gi, k)})
+		}
+	}
+	var mu sync.Mutex
+	bad := ""
+	var wg sync.WaitGroup
+	for gi := range sels {
+		wg.Add(1)
+		go func(gi int) {
+			defer wg.Done()
+			for it := 0; it < iters; it++ {
+				for k := 0; k < nk; k++ {
+					got := sels[gi].Select(context.Background(), "Arith", "Mul", c13YieldArg{fmt.Sprintf("key-%d-%d", gi, k)})
+					if got != want[gi][k] {
+						mu.Lock()
+						if bad == "" {
+							bad = fmt.Sprintf("with %d clients selecting concurrently, key %q mapped to %s; alone it maps to %s (server set unchanged)", g, fmt.Sprintf("key-%d-%d", gi, k), got, want[gi][k])
+						}
+						mu.Unlock()
+						return
+					}
+				}
+			}
+		}(gi)
+	}
+	wg.Wait()
+	if bad != "" {
+		o.Fail(id, "unstable", bad, abstract)
+	}
+	o.ImplOnly(id, abstract, true)
+	o.Count("concurrent-clients")
+}
+
 func runC13(r *common.Rand, tier string, o *common.Out, replay string) {
+	if strings.HasPrefix(replay, "conc|") {
+		var n, g, iters int
+		p := strings.Split(replay, "|")
+		fmt.Sscan(p[1], &n)
+		fmt.Sscan(p[2], &g)
+		fmt.Sscan(p[3], &iters)
+		c13Concurrent(o, "replay", n, g, iters)
+		return
+	}
+	if replay == "" {
+		// the same key maps to the same server under concurrent use by several clients (oracle only)
+		ci := 40
+		if tier == "thorough" {
+			ci = 600
+		}
+		for _, g := range []int{2, 4, 8} {
+			c13Concurrent(o, fmt.Sprintf("conc%d", g), 3+g, g, ci)
+		}
+	}
 	if replay != "" {
 		p := strings.Split(replay, "|")
 		if p[0] == "jump" {
